@@ -216,6 +216,10 @@ def cases(tier, rng):
         items.append((rng.choice([5, 6, 7]), rand_mix(rng, rng.randrange(1, 400)), 0))
     for lv, d in capacity_family(tier, rng):
         items.append((lv, d, 0))
+    import gaps
+    for g in gaps.family(rng, tier, ("pdf",)):
+        t = g.split(" ")
+        items.append((int(t[1]), b"" if t[2] == "-" else bytes.fromhex(t[2]), 0))
     cols = probe_cols([(lv, d) for lv, d, _ in items])
     lines = ["pdf %d %s %s %d" % (lv, hx(d), c, sch) for (lv, d, sch), c in zip(items, cols)]
     # high-level codewords for every data string
